@@ -794,6 +794,16 @@ pub fn main(spec: Spec, body: fn(&mut Ctx)) -> ! {
     }
     let replay_dir = verif_root().join("replays");
     std::fs::create_dir_all(&replay_dir).ok();
+    if a.part.is_none() {
+        // replays/ holds the failures of the latest run of each property only
+        if let Ok(rd) = std::fs::read_dir(&replay_dir) {
+            for e in rd.flatten() {
+                if e.file_name().to_string_lossy().starts_with(&format!("{}-", spec.prop)) {
+                    let _ = std::fs::remove_file(e.path());
+                }
+            }
+        }
+    }
     let tier_s = if a.tier == Tier::Quick { "quick" } else { "thorough" };
     let mut violation_lines = vec![];
     for (w, why) in &crashed {
